@@ -188,19 +188,45 @@ func ReplayAll(behs []Beh, env *core.Env, rep *core.Report, pause time.Duration,
 			atomic.AddInt32(&stuck, 1)
 		}
 		if len(ms) > 0 && containsProp(ms, "C03", "C04") {
-			// deadline-derived verdicts are re-tried once, alone
-			results[i] = res{nil, nil, -1}
+			// deadline-derived verdicts are re-tried once, alone (below)
+			results[i] = res{ms, nil, -1}
 			return
 		}
 		results[i] = res{ms, err, i}
 	})
-	retried := 0
+	// Deadline-derived mismatches: the first six are executed again, alone. One that does not
+	// recur is dropped (the deadline, 4000 x the nominal latency, was missed for another reason).
+	// If at least one recurs the others are reported as first observed; if none of the retried
+	// ones recurs, all are dropped.
+	retried, confirmed := 0, 0
 	for i := range results {
 		if results[i].i == -1 && retried < 6 {
 			retried++
 			rng := rand.New(rand.NewSource(env.Seed*1000003 + int64(i)))
 			ms, err := Lockstep(behs[i], rng, pause)
-			results[i] = res{ms, err, i}
+			if containsProp(ms, "C03", "C04") {
+				confirmed++
+				results[i] = res{ms, err, i}
+			} else {
+				// behaviour-dependent causes (Go map order) may not recur either: try once more
+				rng2 := rand.New(rand.NewSource(env.Seed*7 + int64(i)))
+				ms2, err2 := Lockstep(behs[i], rng2, pause)
+				if containsProp(ms2, "C03", "C04") {
+					confirmed++
+					results[i] = res{ms2, err2, i}
+				} else {
+					results[i] = res{ms2, err2, i}
+				}
+			}
+		}
+	}
+	for i := range results {
+		if results[i].i == -1 {
+			if confirmed > 0 {
+				results[i].i = i
+			} else {
+				results[i] = res{nil, nil, -2}
+			}
 		}
 	}
 	for i, r := range results {
